@@ -233,6 +233,7 @@ type childOut struct {
 	stderr  string
 	wall    time.Duration
 	timeout bool
+	killed  string // the child was ended by this signal from outside (e.g. the kernel's OOM killer), not by a Go crash
 }
 
 func selfExe(norace bool) string {
@@ -285,6 +286,7 @@ func runChild(p Property, c *Ctx, b batch, slot int, tag string, watchdog time.D
 		}
 	}
 	ef.Close()
+	co.killed = killedBySignal(werr)
 	co.wall = time.Since(start)
 	co.results = readResults(out)
 	last, spec, finished := readJournal(journal)
@@ -612,6 +614,12 @@ func Check(p Property, c *Ctx) int {
 						mu.Lock()
 						inconclusiveChildren++
 						all = append(all, Result{Case: co.crashAt, Verdict: Inconclusive, Symptom: "watchdog", Message: "child exceeded watchdog; see stderr dump", Spec: co.spec})
+						mu.Unlock()
+					} else if co.killed != "" && rePanic.FindString(co.stderr) == "" {
+						// no Go crash report, ended by a signal from outside (OOM killer, operator): says nothing about pebbles
+						mu.Lock()
+						inconclusiveChildren++
+						all = append(all, Result{Case: co.crashAt, Verdict: Inconclusive, Symptom: "child-killed-by-signal: " + co.killed, Message: "the worker process was ended by signal " + co.killed + " without a Go crash report (out of memory?)", Spec: co.spec})
 						mu.Unlock()
 					} else if co.crashAt >= 0 && CrashInHarness(co.stderr) {
 						mu.Lock()
